@@ -602,6 +602,18 @@ fn exhaustive_schedules<F: Fam>(out: &mut Out, run: &mut u64, bytes: &[u8]) {
     }
 }
 
+/// GEN: a stream from the model's stream set (MC_Poll): every schedule if it is short, else seeded schedules
+pub fn model_stream_runs<F: Fam>(out: &mut Out, rng: &mut Rng, run: &mut u64, bytes: &[u8]) {
+    if !bytes.is_empty() && bytes.len() <= 10 {
+        exhaustive_schedules::<F>(out, run, bytes);
+    } else {
+        for _ in 0..40 {
+            *run += 1;
+            poll_schedule_run::<F>(out, rng, *run, bytes);
+        }
+    }
+}
+
 fn short_streams<F: GenFam>(rng: &mut Rng) -> Vec<Vec<u8>> {
     let mut v: Vec<Vec<u8>> = Vec::new();
     let mut b = Budget { big: 0, huge: 0 };
